@@ -163,16 +163,17 @@ def check_error_context(model: Model, col, rule: str):
         atoms = cond_atoms(evs)
         is_ce = next((v for k, v in atoms.items() if "CompileException" in k and k.startswith(("issubclass(", "isinstance("))), None)
         rv = evs[-1].node.value
+        none_key = f"{ex.args.args[1].arg} is None"  # "no exception was raised" test on the exception-type parameter
         if is_ce is True:
             n += 1
             called = any(isinstance(c.func, ast.Attribute) and "allback" in c.func.attr for c in calls_on_path(evs))
             has_cb = next((v for k, v in atoms.items() if "allback" in k), None)
-            others = [k for k, v in atoms.items() if "allback" not in k and "CompileException" not in k and "exc_type is None" not in k]
+            others = [k for k, v in atoms.items() if "allback" not in k and "CompileException" not in k and none_key not in k]
             if has_cb is not False:
                 cb_ok = called and not others
                 if not cb_ok:
                     break
-        elif is_ce is False and isinstance(rv, ast.Constant) and rv.value is True and atoms.get("exc_type is None") is not True:
+        elif is_ce is False and isinstance(rv, ast.Constant) and rv.value is True and atoms.get(none_key) is not True:
             swallow_other = True
     col.check(cb_ok and n > 0, rule, f"{ERRORS}::CompileExceptionToErrorHandler.__exit__ reports every compile error", "a CompileException is logged and the callback (if any) is called, unconditionally",
               "a CompileException can be swallowed without calling the region's callback (extra condition on the path): the validator whose flag the callback clears accepts the program", ERRORS, ex)
